@@ -123,7 +123,9 @@ def eval_case(chks, case, records):
         span = np.abs(x).max() * 2
         margin = max(1e-5, 8 * float(L.ulp32(span)))
         extent = w if use_box else max(1e-3, float(np.ptp(x, axis=1).max()))
-        cutoffs = [0.01, 0.11 * extent, 0.25 * extent, 0.4999 * extent] if use_box else [0.01, 0.08 * extent, 0.3 * extent]
+        cutoffs = [0.11 * extent, 0.25 * extent, 0.4999 * extent] if use_box else [0.08 * extent, 0.3 * extent]
+        if case.get("tiny"):
+            cutoffs = [0.01] + cutoffs  # ~1e6 voxels in the list builder: only on a subset of the cases (cost)
         if case.get("cutoff_fracs"):
             cutoffs = [fr_ * extent for fr_ in case["cutoff_fracs"]]
         if case.get("cutoffs"):
@@ -260,7 +262,7 @@ def _check_neighbors(res, D, d32, cutoff, margin, query, hay):
 
 def assign_keys(chks, records):
     """Order-independent witness classes.  Failures are grouped by (function, clause, mode, position class, cell
-    kind); a group's class gets the suffix ':unreduced' / ':<distribution>' / ':<cutoff class>' only when EVERY
+    kind); a group's class gets the suffix ':<distribution>' / ':<cutoff class>' only when EVERY
     failure of the group has that feature; a group is dropped when a coarser group (position class and cell kind
     both <=, no special suffix) failed too -- it contains the smaller witness.  Witness = fewest atoms."""
     groups = {}
@@ -270,8 +272,6 @@ def assign_keys(chks, records):
     described = {}
     for g, rs in groups.items():
         sfx = []
-        if all(r["unreduced"] for r in rs):
-            sfx.append(":unreduced")
         if len({r["dist"] for r in rs}) == 1 and rs[0]["dist"] != "uniform":
             sfx.append(":" + rs[0]["dist"])
         if len({r["cut"] for r in rs}) == 1 and rs[0]["cut"] != "mid-cutoff":
@@ -292,8 +292,8 @@ def assign_keys(chks, records):
 
 def _checks(sz):
     bound = (f"cells [{', '.join(FAMILIES)}] (edges rescaled to <= 6 nm) x distributions {DISTS} x positions [inside the rectangular brick [0,ax)x[0,by)x[0,cz), inside the unit-cell parallelepiped, shifted by random lattice vectors in [-3,3]^3] "
-             f"x atom counts {sz['n_atoms']} x {sz['seeds']} seed(s) x {sz['n_frames']} frames x periodic in (True,False); cutoffs [0.01, 0.11 w, 0.25 w, 0.4999 w] (w = smallest perpendicular cell width; "
-             "without a cell 0.01, 0.08, 0.3 of the extent)")
+             f"x atom counts {sz['n_atoms']} x {sz['seeds']} seed(s) x {sz['n_frames']} frames x periodic in (True,False); cutoffs [0.11 w, 0.25 w, 0.4999 w] (w = smallest perpendicular cell width; without a cell 0.08, 0.3 of the extent) "
+             "plus 0.01 nm on the clustered sets (cluster sigma 0.004-0.08 of the cell); 120-atom stress cases at 0.4999 w in skewed cells")
     return {
         "list": Check("neighborlist-vs-bruteforce", "md.compute_neighborlist", bound,
                       "oracle: float64 brute-force minimum-image distance matrix (specs.lattice.min_image) and, separately, md.compute_distances on the same frame; "
@@ -324,7 +324,8 @@ def _cases(tier, seed):
                             continue
                         if n == 400 and pos == "cell":
                             continue
-                        cases.append(dict(family=fam, dist=dist, pos=pos, seed=s, n_atoms=n, n_frames=fr))
+                        tiny = dist == "clustered" and n >= 7 and (tier != "quick" or fam in ("none", "cubic", "ortho", "monoclinic", "triclinic", "truncoct-amber"))
+                        cases.append(dict(family=fam, dist=dist, pos=pos, seed=s, n_atoms=n, n_frames=fr, tiny=tiny))
     # targeted: skewed cells, many atoms inside the brick, cutoff at half the smallest width (few voxels per axis)
     for k in range(8 if tier == "quick" else 30):
         for fam in ("triclinic", "triclinic-unreduced", "varying", "mixed-ortho-tric"):
@@ -365,6 +366,7 @@ def replay(payload):
     inp = payload.get("input") or payload.get("failing_input")
     chks = _checks(dict(n_atoms=[inp["n_atoms"]], seeds=1, n_frames=inp["n_frames"]))
     case = {k: inp[k] for k in ("family", "dist", "pos", "seed", "n_atoms", "n_frames")}
+    case["tiny"] = inp.get("tiny", False)
     if "cutoff" in inp:
         case["cutoffs"] = [inp["cutoff"]]
     records = []
